@@ -59,7 +59,7 @@ def specDispatch (sys : Sys) (n : String) (ev : Obj) (now : Int) : Json :=
     | .ok l => okJ (found2J l)
     | .error e => errJ e
 
-/-- Effects of `Env.AddFact` actions (template "addfact"), applied in walk order after the pure event model ran:
+/-- Effects of `Env.AddFact` / `Env.AddRule` / `Env.RemFact` actions (templates "addfact", "addrule", "remfact"), applied in walk order after the pure event model ran:
 a refused add (write key, capacity, disabled …) makes the script throw, i.e. the action node fails. -/
 def applyEffects (sys : Sys) (c : Ctx) (n : String) (now : Int) (cands : List (String × RuleM × Bool)) (t : Tree) : Sys × Tree :=
   let actionsOf (id : String) : List J := match cands.find? (fun x => x.1 == id) with | some (_, r, _) => r.actions | none => []
@@ -72,6 +72,17 @@ def applyEffects (sys : Sys) (c : Ctx) (n : String) (now : Int) (cands : List (S
         let id := match Obj.get? o "id" with | some (.str i) => i | _ => ""
         let fact := match Obj.get? o "fact" with | some (.obj f) => f | _ => []
         match acc.1.at n (locAddFact c id fact now) with
+        | (s1, .ok _) => (s1, acc.2 ++ [a])
+        | (s1, .error _) => (s1, acc.2 ++ [{ ok := false, value := .null }])
+      else if a.ok && Obj.get? o "t" == some (.str "addrule") then
+        let id := match Obj.get? o "id" with | some (.str i) => i | _ => ""
+        let rule := match Obj.get? o "rule" with | some (.obj f) => f | _ => []
+        match acc.1.at n (locAddRule c id rule now) with
+        | (s1, .ok _) => (s1, acc.2 ++ [a])
+        | (s1, .error _) => (s1, acc.2 ++ [{ ok := false, value := .null }])
+      else if a.ok && Obj.get? o "t" == some (.str "remfact") then
+        let id := match Obj.get? o "id" with | some (.str i) => i | _ => ""
+        match acc.1.at n (locRemFact c id now) with
         | (s1, .ok _) => (s1, acc.2 ++ [a])
         | (s1, .error _) => (s1, acc.2 ++ [{ ok := false, value := .null }])
       else (acc.1, acc.2 ++ [a])
